@@ -12,6 +12,10 @@ Props/C02.lean).  One reply line per request line.
         → n  (μcode σ²code μtrue σ²true quad)×n  ratpart      | singular
         ratpart = looObjective ½ 0 [looTerm ½ 0 quadᵢ] priors added n   (add −½ Σ log σ²ᵢ / n − ½ log 2π outside)
   sum c m₁…m_c → sumMll
+  grad 0  <A> <r: n 1 v…>  c (<D_k: n n v…> <dμ_k: n 1 v…>)×c
+        → (rᵀA⁻¹D_kA⁻¹r  tr(A⁻¹D_k)  dμ_kᵀA⁻¹r  gradAssemble ½ ·)×c      | singular
+        (`MLL.gradParts?`: the exact gradient of log N(y | μ, A) along (D_k, dμ_k) — `Props/C02.lean`
+        `logNormal_gradient`, `gradParts_correct`)
 -/
 import GPVerif.Model.MLL
 import GPVerif.Gen.MLLAssembly
@@ -118,11 +122,36 @@ def stepSum (ts : List String) : Option String := do
   let ms ← parseRats? ts
   some (showRat (Gen.MLLAssembly.sumMllExpr ms))
 
+def stepGrad (ts : List String) : Option String := do
+  let (k, ts) ← takeNat ts
+  if k ≠ 0 then none else
+  let (n, c, A, ts) ← takeMat? ts
+  let (n2, _, r, ts) ← takeMat? ts
+  if n ≠ c ∨ n2 ≠ n then none else
+  let (cnt, ts) ← takeNat ts
+  let Am : DMat n n Rat := DMat.ofRaw A
+  let rv := colVec n r
+  let rec go (cnt : Nat) (ts : List String) (acc : List String) : Option (List String) :=
+    match cnt with
+    | 0 => if ts = [] then some acc.reverse else none
+    | cnt + 1 => do
+        let (a, b, D, ts) ← takeMat? ts
+        let (a2, _, dm, ts) ← takeMat? ts
+        if a ≠ n ∨ b ≠ n ∨ a2 ≠ n then none else
+        let Dm : DMat n n Rat := DMat.ofRaw D
+        match gradParts? Am Dm rv (colVec n dm) with
+        | none => some ["singular"]
+        | some p =>
+          go cnt ts (s!"{showRat p.1} {showRat p.2.1} {showRat p.2.2} {showRat (gradAssemble (1 / 2 : Rat) p)}" :: acc)
+  let out ← go cnt ts []
+  if out.contains "singular" then some "singular" else some (" ".intercalate out)
+
 def step (line : String) : String :=
   let r := match tokens line with
     | "mll" :: ts => stepMll ts
     | "loo" :: ts => stepLoo ts
     | "sum" :: ts => stepSum ts
+    | "grad" :: ts => stepGrad ts
     | _ => none
   r.getD "bad-request"
 
